@@ -25,12 +25,18 @@ Fixpoint keys_nonneg (v : value) : bool :=
   | VSet _ | VFrozen _ => true
   end.
 
+(* [addA]: also treat added iterable items as located entries (used for the
+   positional mode, where an added and a removed item never share a path) *)
+Section WithAdd.
+Variable addA : bool.
+
 Definition loc (e : entry) : path := npath (ep1 e).
 (* Some true: located on the t1 side and verified (or possibly turned into a
    value change); Some false: a set whose items change *)
 Definition cls (e : entry) : option bool :=
   match ekind e with
   | KValue | KType | KIterRem => Some true
+  | KIterAdd => if addA then Some true else None
   | KSetAdd | KSetRem => Some false
   | _ => None
   end.
@@ -171,11 +177,11 @@ Proof.
   - destruct (diff_str udiff true s s0) as [ch d]. destruct ch; [apply report_atmost1|left; reflexivity].
 Qed.
 
-Lemma added_from_Free ys j p : Free (added_from skip ys j p p).
+Lemma added_from_Free ys j p : addA = false -> Free (added_from skip ys j p p).
 Proof.
-  revert j; induction ys as [|y ys IH]; intros j e He; cbn in He; [destruct He|].
+  intros HA. revert j; induction ys as [|y ys IH]; intros j e He; cbn in He; [destruct He|].
   apply in_app_or in He as [He|He]; [|eapply IH; exact He].
-  apply report_kind in He as [K _]. unfold cls. rewrite K. reflexivity.
+  apply report_kind in He as [K _]. unfold cls. rewrite K, HA. reflexivity.
 Qed.
 
 (* entries located at p ++ [PIdx i'] ++ rest with i' >= i *)
@@ -212,6 +218,21 @@ Proof.
       apply (cross_idx p i); [|exact U]. apply atmost1_Under. exact A1.
     + intros e He N. apply in_app_or in He as [He|He].
       * apply report_kind in He as [_ E]. exists i, []. split; [lia|exact E].
+      * destruct (U e He N) as (i' & rest & L & E). exists i', rest. split; [lia|exact E].
+Qed.
+
+Lemma added_from_good ys : forall j p,
+  allpairs (added_from skip ys j p p) /\ UnderIdx p j (added_from skip ys j p p).
+Proof.
+  induction ys as [|y ys IH]; intros j p; cbn [added_from].
+  - split; [exact I|intros e []].
+  - destruct (IH (S j) p) as [A U].
+    pose proof (report_atmost1 KIterAdd (snoc p (PIdx j)) (snoc p (PIdx j)) None (Some y) None) as A1.
+    split.
+    + apply allpairs_app; [eapply atmost1_allpairs; exact A1|exact A|].
+      apply (cross_idx p j); [|exact U]. apply atmost1_Under. exact A1.
+    + intros e He N. apply in_app_or in He as [He|He].
+      * apply report_kind in He as [_ E]. exists j, []. split; [lia|exact E].
       * destruct (U e He N) as (i' & rest & L & E). exists i', rest. split; [lia|exact E].
 Qed.
 
@@ -253,12 +274,12 @@ Proof.
   - eapply UnderRange_weaken; [| |apply IH]; lia.
 Qed.
 
-Lemma pairs_leaf_good xs : forall ys i j p,
+Lemma pairs_leaf_good xs : addA = false -> forall ys i j p,
   allpairs (pairs_leaf udiff skip xs ys i j p p) /\
   UnderRange p i (i + length xs) (pairs_leaf udiff skip xs ys i j p p).
 Proof.
-  induction xs as [|x xs IH]; intros ys i j p.
-  - cbn. assert (F : Free (added_from skip ys j p p)) by apply added_from_Free.
+  intros HA. induction xs as [|x xs IH]; intros ys i j p.
+  - cbn. assert (F : Free (added_from skip ys j p p)) by (apply added_from_Free; exact HA).
     destruct ys; (split; [apply Free_allpairs|apply Free_UnderRange]); exact F.
   - destruct ys as [|y ys].
     + cbn [pairs_leaf]. split; [apply removed_from_good|apply removed_from_range].
@@ -282,10 +303,10 @@ Fixpoint ops_ok (lo : nat) (os : list opcode) : bool :=
   | o :: r => Nat.leb lo (oi1 o) && Nat.leb (oi1 o) (oi2 o) && ops_ok (oi2 o) r
   end.
 
-Lemma by_opcodes_good os : forall lo xs ys p, ops_ok lo os = true ->
+Lemma by_opcodes_good os : addA = false -> forall lo xs ys p, ops_ok lo os = true ->
   allpairs (by_opcodes udiff skip os xs ys p p) /\ UnderIdx p lo (by_opcodes udiff skip os xs ys p p).
 Proof.
-  induction os as [|o os IH]; intros lo xs ys p H; unfold by_opcodes in *; cbn [flat_map].
+  intros HA. induction os as [|o os IH]; intros lo xs ys p H; unfold by_opcodes in *; cbn [flat_map].
   - split; [exact I|intros e []].
   - cbn in H. apply andb_true_iff in H as [H H3]. apply andb_true_iff in H as [H1 H2].
     apply Nat.leb_le in H1, H2. destruct (IH (oi2 o) xs ys p H3) as [A U].
@@ -293,10 +314,10 @@ Proof.
     assert (B : allpairs blk /\ UnderRange p (oi1 o) (oi2 o) blk).
     { unfold blk. pose proof (slice_length_le xs (oi1 o) (oi2 o)) as SL. destruct (otag o).
       - split; [exact I|intros e []].
-      - destruct (pairs_leaf_good (slice xs (oi1 o) (oi2 o)) (slice ys (oj1 o) (oj2 o)) (oi1 o) (oj1 o) p) as [A1 U1].
+      - destruct (pairs_leaf_good (slice xs (oi1 o) (oi2 o)) HA (slice ys (oj1 o) (oj2 o)) (oi1 o) (oj1 o) p) as [A1 U1].
         split; [exact A1|eapply UnderRange_weaken; [| |exact U1]; lia].
       - split; [apply removed_from_good|]. eapply UnderRange_weaken; [| |apply removed_from_range]; lia.
-      - assert (F : Free (added_from skip (slice ys (oj1 o) (oj2 o)) (oj1 o) p p)) by apply added_from_Free.
+      - assert (F : Free (added_from skip (slice ys (oj1 o) (oj2 o)) (oj1 o) p p)) by (apply added_from_Free; exact HA).
         split; [apply Free_allpairs|apply Free_UnderRange]; exact F. }
     destruct B as [A1 U1]. split.
     + apply allpairs_app; [exact A1|exact A|]. apply (cross_range p (oi1 o) (oi2 o)); assumption.
@@ -308,13 +329,13 @@ Qed.
 (* the t1 ranges of the opcodes are sorted and disjoint (true of difflib) *)
 Definition ops_disjoint : Prop := forall p xs ys, ops_ok 0 (ops p xs ys) = true.
 
-Theorem leaf_good_of_ops_disjoint : ops_disjoint ->
+Theorem leaf_good_of_ops_disjoint : addA = false -> ops_disjoint ->
   forall p xs ys, allpairs (fst (default_leaf_list udiff ops skip xs ys p p)) /\
                   Under p (fst (default_leaf_list udiff ops skip xs ys p p)).
 Proof.
-  intros H p xs ys. unfold default_leaf_list.
-  destruct (by_opcodes_good (ops p xs ys) 0 xs ys p (H p xs ys)) as [A1 U1].
-  destruct (pairs_leaf_good xs ys 0 0 p) as [A2 U2].
+  intros HA H p xs ys. unfold default_leaf_list.
+  destruct (by_opcodes_good (ops p xs ys) HA 0 xs ys p (H p xs ys)) as [A1 U1].
+  destruct (pairs_leaf_good xs HA ys 0 0 p) as [A2 U2].
   assert (G1 : allpairs (by_opcodes udiff skip (ops p xs ys) xs ys p p) /\ Under p (by_opcodes udiff skip (ops p xs ys) xs ys p p))
     by (split; [exact A1|eapply UnderIdx_Under; exact U1]).
   assert (G2 : allpairs (pairs_leaf udiff skip xs ys 0 0 p p) /\ Under p (pairs_leaf udiff skip xs ys 0 0 p p))
@@ -346,7 +367,7 @@ Lemma go_list_good xs : Forall IHD xs -> forall ys i p,
   allpairs (fst (go_list skip diff p p xs ys i)) /\ UnderIdx p i (fst (go_list skip diff p p xs ys i)).
 Proof.
   induction 1 as [|x xs Hx _ IH]; intros ys i p W1 W2 N2.
-  - cbn. split; [apply Free_allpairs|apply Free_UnderIdx]; apply added_from_Free.
+  - cbn. apply added_from_good.
   - destruct ys as [|y ys]; [cbn [go_list fst]; apply removed_from_good|].
     cbn [go_list]. unfold app2. cbn [fst].
     cbn in W1, W2, N2. apply andb_true_iff in W1 as [Wx W1], W2 as [Wy W2], N2 as [Ny N2].
@@ -601,6 +622,8 @@ Qed.
 
 End Guard.
 
+End WithAdd.
+
 (* ---- the theorem for the delta of a diff ---- *)
 Section Final.
 Variable hatom : atom -> pystr.
@@ -610,14 +633,14 @@ Variable skip excl : path -> bool.
 Variable c : cfg.
 
 Theorem diff_delta_indep conv always ops' t1 t2 :
-  (zip c = false -> leaf_good udiff ops skip) ->
+  (zip c = false -> leaf_good false udiff ops skip) ->
   wf t1 = true -> wf t2 = true -> keys_nonneg t2 = true ->
   let r := run_diff hatom udiff ops skip excl c t1 t2 in
   indep_verified (to_delta conv true always ops' t1 t2 (fst r) (snd r)) = true.
 Proof.
-  intros Hleaf W1 W2 N2 r. apply indep_of_allpairs.
+  intros Hleaf W1 W2 N2 r. apply (indep_of_allpairs false).
   unfold r, run_diff.
-  pose proof (diff_good hatom udiff ops skip excl c Hleaf t1 t2 [] W1 W2 N2) as [A _].
+  pose proof (diff_good false hatom udiff ops skip excl c Hleaf t1 t2 [] W1 W2 N2) as [A _].
   destruct (diff hatom udiff ops skip excl c t1 t2 [] []) as [es rec]. cbn [fst] in *.
   apply mutual_allpairs. exact A.
 Qed.
@@ -627,12 +650,31 @@ Corollary diff_delta_indep_ops conv always ops' t1 t2 :
   wf t1 = true -> wf t2 = true -> keys_nonneg t2 = true ->
   let r := run_diff hatom udiff ops skip excl c t1 t2 in
   indep_verified (to_delta conv true always ops' t1 t2 (fst r) (snd r)) = true.
-Proof. intros H. apply diff_delta_indep. intros _. exact (leaf_good_of_ops_disjoint udiff ops skip H). Qed.
+Proof. intros H. apply diff_delta_indep. intros _. exact (leaf_good_of_ops_disjoint false udiff ops skip eq_refl H). Qed.
 
 Corollary diff_delta_indep_zip conv always ops' t1 t2 :
   zip c = true -> wf t1 = true -> wf t2 = true -> keys_nonneg t2 = true ->
   let r := run_diff hatom udiff ops skip excl c t1 t2 in
   indep_verified (to_delta conv true always ops' t1 t2 (fst r) (snd r)) = true.
 Proof. intros Z. apply diff_delta_indep. intros Z'. congruence. Qed.
+
+(* positional mode: an added and a removed iterable item never share a path,
+   so mutual_add_removes_to_become_value_changes changes nothing *)
+Lemma diverge_irrefl : forall p, diverge p p = false.
+Proof. induction p as [|k p IH]; [reflexivity|]. cbn. rewrite pkey_eqb_refl. exact IH. Qed.
+
+Theorem zip_add_rem_distinct t1 t2 p :
+  zip c = true -> wf t1 = true -> wf t2 = true -> keys_nonneg t2 = true ->
+  forall a r, In a (fst (diff hatom udiff ops skip excl c t1 t2 p p)) ->
+              In r (fst (diff hatom udiff ops skip excl c t1 t2 p p)) ->
+              ekind a = KIterAdd -> ekind r = KIterRem -> ep1 a <> ep1 r.
+Proof.
+  intros Z W1 W2 N2 a r Ha Hr Ka Kr E.
+  assert (Hleaf : zip c = false -> leaf_good true udiff ops skip) by (intros Z'; congruence).
+  pose proof (diff_good true hatom udiff ops skip excl c Hleaf t1 t2 p W1 W2 N2) as [A _].
+  assert (N : a <> r) by (intros ->; congruence).
+  pose proof (allpairs_In true _ A a r Ha Hr N) as R0. unfold R, cls in R0. rewrite Ka, Kr in R0.
+  unfold loc in R0. rewrite E, diverge_irrefl in R0. discriminate.
+Qed.
 
 End Final.
